@@ -835,6 +835,16 @@ func cgGenValue(t *rapid.T, rt reflect.Type, name, l string) (any, bool) {
 // cgUnknownTypes collects Go types met by the generator for which it has no rule (surfaced as notes).
 var cgUnknownTypes = map[string]bool{}
 
+// cgUnknownTypeNotes renders cgUnknownTypes for the evidence record (sorted).
+func cgUnknownTypeNotes() []string {
+	var out []string
+	for k := range cgUnknownTypes {
+		out = append(out, "document generator has no rule for Go type "+k+" (parameters of that type are not generated)")
+	}
+	sort.Strings(out)
+	return out
+}
+
 // cgGenStructDoc picks between minFields and maxFields configurable fields of rt and generates a
 // value for each. exclude lists JSON keys that must not be generated here.
 func cgGenStructDoc(t *rapid.T, rt reflect.Type, l string, minFields, maxFields int, exclude map[string]bool) (map[string]any, bool) {
